@@ -11,7 +11,8 @@ LEVEL = ("Static necessary conditions of reversibility, decided on the resolved 
          " Added during seeding: the gate of the U-turn criterion (options.check_turning or a flag parameter) depends on check_turning / depth / mindepth only and is handed down unchanged to sub-trees (R7); initial_energy is a snapshot of energy() after the last write of what energy() reads (R9)."
          " Added (round 4): the acceptance of the new half's draw inside a sub-tree is decided path-sensitively with is_main assumed false - the new weight is compared with the merged weight only and gated by random_bool(exp(other - merged)) (R11); no U-turn test inside the loop that builds the new half (R12); the no-check options are selected exactly on the paths that passed tree.depth < mindepth, whatever shape the selection has (R7 by path enumeration)."
          " Added (round 5): per kinetic-energy kind the new point's energy is its own and both velocity half-steps read the same fields (R13 = C02-R11 analysis)."
-         " Added (round 6): every write of a transformation is followed by the id increment, so a tree's start point is never left in the coordinates of the previous transformation (R14 = C02-R5); the CPU backend carries no state from one kernel call to the next (R15 = C17-K9).")
+         " Added (round 6): every write of a transformation is followed by the id increment, so a tree's start point is never left in the coordinates of the previous transformation (R14 = C02-R5); the CPU backend carries no state from one kernel call to the next (R15 = C17-K9)."
+         " Added (round 7): inside extend() no option other than check_turning takes part in the conditions that lead to is_turning() - mindepth is decided in the doubling loop only (R7 gate-options-only).")
 EXPLANATION = ("Rules C01-R1..R6 evaluated on every matching site of the all-features build; each rule instance is a "
                "(rule, site) obligation. What is established: the structural clauses listed in level_text hold at every site; "
                "what is not: the Metropolis/multinomial formulas as numbers.")
